@@ -61,6 +61,12 @@ def run(ctx, F):
         n += 1
     ctx.floor("C18.claim", n, 10, "test-and-set functions in the frozen table")
 
+    # the primitives every claim above relies on: compare-exchange on a sub-byte in-header / side field is one atomic
+    # byte-wide RMW, and atomic stores to a neighbouring field cannot overwrite it (no load-then-store)
+    from .C23 import check_header_cas
+    from .C20 import check_side_atomics
+    check_header_cas(ctx, F, "C18.primitive-cas")
+    check_side_atomics(ctx, F, "C18.primitive-cas")
     # selection of the non-atomic mark: only when duplicates are acceptable
     am = F.fns.get("policy::marksweepspace::native_ms::global::MarkSweepSpace::attempt_mark")
     if am is not None:
